@@ -14,3 +14,8 @@ G('tz.__find_zrng', 'tzraw', '__find_zrng', TZ, body=ZB + '\t__find_zrng(z, in_t
 UNR = lambda *fs: ['%s/UNREACH_%s' % (f, f) for f in fs]
 G('tz.__offs', 'tzraw', '__offs', TZ, body=ZB + '\t__offs(z, in_t);', replace=['__find_zrng'] + UNR('__tai_offs', '__gps_offs'), native=False, timeout=1200)
 G('tz.zif_local_time', 'tzraw', 'zif_local_time', TZ, body=ZB + '\tzif_local_time(z, in_t);', replace=['__offs'], native=False, timeout=600)
+G('tz.__tai_offs', 'tzraw', '__tai_offs', ['C14'], ins=[('long long', 'in_t')], call='__tai_offs(in_t)', ret='stamp_t', replace=['leaps_before_si32'],
+  unwind=40, timeout=600, sweep={'in_t': '(long long)(RND % 8000000000ULL) - 1000000000LL'})
+G('tz.__gps_offs', 'tzraw', '__gps_offs', ['C14'], ins=[('long long', 'in_t')], call='__gps_offs(in_t)', ret='stamp_t', replace=['__tai_offs'],
+  unwind=40, timeout=600, sweep={'in_t': '(long long)(RND % 8000000000ULL) - 1000000000LL'})
+G('tz.L_leaptab', 'tzraw', 'L_leaptab', ['C14'], body='\tL_leaptab();', direct=True, must=['L_leaptab'], native=False, reach=False, unwind=40)
